@@ -210,7 +210,18 @@ def check(repo, rep):
             if isinstance(n, ast.Call) and isinstance(n.func, ast.Attribute) and n.func.attr == 'add_argument':
                 if id(n) not in in_main or any(not (isinstance(a, ast.Constant) and isinstance(a.value, str)) for a in n.args):
                     tab_incomplete = True
-    rep.floor('add_argument calls', len(tab), 25)
+    # add_argument taken as a VALUE (partial(group.add_argument, ...), add = group.add_argument, a closure that calls it with computed
+    # arguments): options may be declared through it with names the table extraction cannot compute
+    for m_ in cx.code_mods():
+        for n in ast.walk(cx.model.mods[m_]['tree']):
+            if isinstance(n, ast.Attribute) and n.attr == 'add_argument' and not (isinstance(getattr(n, '_parent', None), ast.Call) and n._parent.func is n):
+                tab_incomplete = True
+            if isinstance(n, ast.Call) and isinstance(n.func, ast.Attribute) and n.func.attr == 'add_argument' and \
+                    (any(not (isinstance(a, ast.Constant) and isinstance(a.value, str)) for a in n.args) or any(k.arg == 'dest' and not isinstance(k.value, ast.Constant) for k in n.keywords)) \
+                    and (tab_sym is None or len(tab_sym) < len(parser_table(mfn, cx.model.mods['cmdline']['consts']))):
+                tab_incomplete = True
+    if not tab_incomplete:
+        rep.floor('add_argument calls', len(tab), 25)
     byflag = {}
     for row in tab:
         for f in row['flags']:
@@ -557,6 +568,59 @@ def check(repo, rep):
         rep.unknown('initialize_workers: no construction of the TokenizerWorker was found on its paths (built by code the evaluator does not follow, e.g. the methods of a builder object): what it is given is not decided')
     from .c12 import check_split_kwargs
     check_split_kwargs(cx, rep)
+    # -O FILE saves the stream; -O FILE -j SILENCE saves the joined detections instead (any SILENCE >= 0, zero included): the
+    # (save_stream, join_detections) options are taken through the tests of every path of initialize_workers
+    from ..semantic import evaluator as _evs
+    from ..termeval import NotEvaluable as _NEs
+    SS, JD = ('sub', ('p', 'kwargs'), ('c', 'save_stream')), ('sub', ('p', 'kwargs'), ('c', 'join_detections'))
+    nsv, sv_bad, sv_und = 0, None, None
+    for l in il:
+        if l.outcome == 'raise':
+            continue
+        made = {e[1][1][2] for e in l.effects if e[0] == 'call' and e[1][0] == 'call' and e[1][1][0] == 'g' and e[1][1][1] == 'workers'}
+        if 'TokenizerWorker' not in made:
+            sv_und = sv_und or 'a path does not build the tokenizer worker itself (workers are built by code that is not followed)'
+            continue
+        # the two options must be tested as kwargs["..."] values on this path, and every such test must be evaluable
+        sees_ss = any(any(x == SS for x in walk(ct)) for ct, _, _ in l.conds)
+        mentions = any(any(x in (('c', 'save_stream'), ('c', 'join_detections')) for x in walk(ct)) and not any(x in (SS, JD) for x in walk(ct)) for ct, _, _ in l.conds)
+        derived = [ct for ct, _, _ in l.conds if not any(x[0] == 'sub' and x[1] == ('p', 'kwargs') for x in walk(ct)) and not any(x[0] == 'p' and x[1] == 'logger' for x in walk(ct)) and any(x[0] in ('g', 'call', 'b') for x in walk(ct))]
+        if derived:
+            # the path also tests a value computed from the options elsewhere (a mode code returned by a helper ...): whether it
+            # agrees with the tests on the options themselves is not followed
+            sv_und = sv_und or 'a path tests a derived value (%s)' % show(derived[0])[:60]
+            continue
+        if not sees_ss or mentions:
+            sv_und = sv_und or 'the options are read in a form that is not evaluated (%s)' % ('kwargs.get / an alias' if mentions else 'no test of save_stream on a path')
+            continue
+        for ss_, jd_ in ((None, None), ('out.wav', None), ('out.wav', 0), ('out.wav', 0.5), ('out.wav', 0.0)):
+            ok_ = True
+            for ct, tr, _ in l.conds:
+                if not any(x in (SS, JD) for x in walk(ct)):
+                    continue
+                try:
+                    e_ = _evs({SS: ss_, JD: jd_})
+                    got = e_.ev(ct)
+                except _NEs as exc:
+                    sv_und = sv_und or str(exc)
+                    continue
+                if e_.leaves:
+                    continue
+                if bool(got) != tr:
+                    ok_ = False
+                    break
+            if not ok_:
+                continue
+            nsv += 1
+            want_join = ss_ is not None and jd_ is not None
+            want_stream = ss_ is not None and jd_ is None
+            if ((('AudioEventsJoinerWorker' in made) != want_join) or (('StreamSaverWorker' in made) != want_stream)) and sv_bad is None:
+                sv_bad = (l, 'with save_stream=%r and join_detections=%r the path builds %s' % (ss_, jd_, sorted(m_ for m_ in made if 'Saver' in m_ or 'Joiner' in m_) or 'no saver'))
+    if sv_und:
+        rep.unknown('initialize_workers: choice of the stream saver / joiner not evaluable (%s)' % sv_und)
+    elif nsv:
+        rep.ob('-O saves the stream, -O with -j (zero included) saves the joined detections, neither without -O', sv_bad is None, cx.where('cmdline_util', sv_bad[0].node) if sv_bad and sv_bad[0].node is not None else cx.where('cmdline_util', ifn),
+               'initialize_workers:saver-choice', sv_bad[1] if sv_bad else None, sample=dict(rule='saver choice', points=nsv))
     # ---------------------------------------------------------------- PrintWorker: format keys
     pc = cx.cls('workers', 'PrintWorker')
     pm = cx.model.find_method('workers', pc, '_process_message')
